@@ -1,13 +1,14 @@
 #!/bin/sh
-# usage: tools/eval_all_seeds.sh C09 [also-list]   -> evaluates /tmp/seed-C09/_seed/{a,b}
-p=$1; also=$2
+# usage: tools/eval_all_seeds.sh C09 [also-list] [base]   -> evaluates <base>-C09/_seed/{a,b}  (base default /tmp/seed)
+p=$1; also=$2; base=${3:-/tmp/seed}
+tagbase=$(basename $base)
 for s in a b; do
-  d=/tmp/seed-$p/_seed/$s
+  d=$base-$p/_seed/$s
   [ -f $d/patch.diff ] || continue
-  /verif/tools/eval_seed.py $d $p --also "$also" > /tmp/eval-$p-$s.json 2>&1
+  /verif/tools/eval_seed.py $d $p --also "$also" > /tmp/eval-$tagbase-$p-$s.json 2>&1
   python3 -c "
 import json,sys
-d=json.load(open('/tmp/eval-$p-$s.json'))
+d=json.load(open('/tmp/eval-$tagbase-$p-$s.json'))
 print('$p/$s', 'applies',d.get('patch_applies'),'suite',d.get('suite_passes_with_patch'),'demo_ok',d.get('demo_ok'), 'caught_by_owner', d.get('caught_by_owner'))
 for k,v in d.get('checks',{}).items(): print('   ',k,'rc',v['rc'], (v['lines'][1][:200] if len(v['lines'])>1 else (v['lines'][0][:200] if v['lines'] else '')))
 "
